@@ -109,6 +109,7 @@ func init() {
 		Title:    "the allowed list behaves as a set and the verdict is monotone in it",
 		Explorer: "E1 bounded-exhaustive expression x allowed-list enumeration, relational oracle between calls (set equality, re-spelling, inclusion)",
 		Rule: "expressions: every tree <= 3 leaves over 7 terms (family-overlapping ids, two references differing only in case) (two renderings coincide semantically; full parenthesisation used); allowed lists: every list of length <= k with repetition over 9 entries (all permutations and duplications of every set of <= k entries); " +
+			"references among licenses: 2 LicenseRefs and 2 DocumentRef:LicenseRefs with one listed id sorting before 'DocumentRef-', two between it and 'LicenseRef-' and one after, lists up to k+1; " +
 			"two more spaces over the 5-7 ways of writing one license (x, x+, x-only, x-or-later, x WITH e, x+ WITH e, x WITH f) as terms and as entries; " +
 			"for every family of the version table that has such ids: its first, second and last version with up to 4 listed ids outside every family that sort between its versions, lists up to 3; " +
 			"every id of the version table and 8 ids / references outside it as a one-term expression satisfied by its own spelling, with any ONE table id (plain or '+') added before or after it; " +
@@ -123,6 +124,12 @@ func init() {
 var c07RefTerms = []string{"LicenseRef-a", "LicenseRef-A", "DocumentRef-d:LicenseRef-a", "DocumentRef-e:LicenseRef-a", "MIT"}
 var c07RefEntries = []string{"LicenseRef-a", "LicenseRef-A", "DocumentRef-d:LicenseRef-a", "DocumentRef-e:LicenseRef-a", "MIT", "DocumentRef-D:LicenseRef-a"}
 
+// references among licenses: one id from each place a listed id can take relative to the two reference
+// prefixes in a sorted list (before "DocumentRef-", between it and "LicenseRef-", after "LicenseRef-"),
+// so that reference entries are never adjacent in whatever order the list is kept
+var c07RefMixTerms = []string{"LicenseRef-a", "DocumentRef-d:LicenseRef-a", "DocumentRef-d:LicenseRef-b", "ISC"}
+var c07RefMixEntries = []string{"LicenseRef-a", "DocumentRef-d:LicenseRef-a", "DocumentRef-d:LicenseRef-b", "LicenseRef-b", "0BSD", "GPL-2.0-only", "ISC", "Zlib"}
+
 func c07Run(c *Ctx) {
 	K := 3
 	if c.Thorough() {
@@ -132,6 +139,9 @@ func c07Run(c *Ctx) {
 		return
 	}
 	if !c07Space(c, "references", c07RefTerms, c07RefEntries, 2, K+1, false) {
+		return
+	}
+	if !c07Space(c, "references-among-licenses", c07RefMixTerms, c07RefMixEntries, 2, K+1, false) {
 		return
 	}
 	if !c07Space(c, "plus-pairs", c07PlusTerms, c07PlusEntries, 2, K+1, false) {
